@@ -7,6 +7,7 @@ namespace ChamVerif
 /-- error outcomes of compilation -/
 inductive CErr
   | template (cls : String) (msg : String) (tok : Tok)   -- a `TemplateError` subclass with its token
+  | templateNoSrc (cls : String) (msg : String) (tok : Str)  -- … whose token is a plain str: `Token(str, 0)` without source
   | crash (cls : String)                                  -- any other exception class
   deriving Repr, DecidableEq, Inhabited
 
@@ -190,6 +191,7 @@ structure Elem where
   tag : Tag
   ns : Str                       -- node['namespace']
   nsAttrs : List ((Str × Str) × Tok)   -- OrderedDict[(ns, name)] = value (later duplicates overwrite in place)
+  nsNames : List ((Str × Str) × Tok)   -- the key objects: the local-name *tokens* (first occurrence, as a dict keeps its first key)
   nsMap : NsMap
   deriving Repr, Inhabited
 
@@ -218,6 +220,16 @@ def unpackAttributes (attrs : List Attr) (m : NsMap) (default : Str) (restricted
       | none => if restricted then .error (.crash "KeyError") else pure (odSet d (default, local_) a.value)
     | none => pure (odSet d (default, a.name.str) a.value)) []
 
+/-- the local-name token of each attribute, keyed like `unpack_attributes` keys them -/
+def unpackNames (attrs : List Attr) (m : NsMap) (default : Str) : List ((Str × Str) × Tok) :=
+  attrs.foldl (fun d a =>
+    let (key, tok) : (Str × Str) × Tok := match splitColon a.name.str with
+      | some (pfx, local_) =>
+        let ns := (m.get (some pfx)).getD default
+        ((ns, local_), a.name.slice (pfx.length + 1) none)
+      | none => ((default, a.name.str), a.name)
+    if d.any (·.1 == key) then d else d ++ [(key, tok)]) []
+
 /-- `parse_tag(token, namespace, restricted)`; returns the element record and the updated namespace map -/
 def parseTag (rx : Rx) (t : Tok) (m : NsMap) (restricted : Bool) : CRes (Elem × NsMap) :=
   match matchTagWith rx t with
@@ -227,7 +239,7 @@ def parseTag (rx : Rx) (t : Tok) (m : NsMap) (restricted : Bool) : CRes (Elem ×
     let pfx : Option Str := (splitColon g.name.str).map (·.1)
     let default := (m'.get pfx).getD XML_NS
     let nsAttrs ← unpackAttributes g.attrs m' default restricted
-    pure ({ tag := g, ns := default, nsAttrs := nsAttrs, nsMap := m' }, m')
+    pure ({ tag := g, ns := default, nsAttrs := nsAttrs, nsNames := unpackNames g.attrs m' default, nsMap := m' }, m')
 
 inductive Item
   | text (t : Tok)
